@@ -262,8 +262,19 @@ CERTS = {
 }
 
 
-def emit_cert(prop, name):
+def correlated_unweighted(cfg):
+    """two UNWEIGHTED instructions with the same (i_in1, i_in2, i_out): their contributions are deterministic functions of the same
+    inputs, hence correlated, which the normalisation formula ignores (known finding of C07; the certificate is then the NEGATION)"""
+    unw = [(a, b, c) for (a, b, c, _m, w, _pw) in cfg.ins if not w]
+    return len(set(unw)) < len(unw)
+
+
+def emit_cert(prop, name, cfg=None):
     imp, thm = CERTS[prop]
+    if prop == "C07" and cfg is not None and correlated_unweighted(cfg):
+        thm = ("/-- recorded known finding `TensorProduct/second-moment/correlated-unweighted-paths`: on this configuration the second-moment law is\n"
+               "    REFUTED — the kernel proves the negation (the program itself is the witness) -/\n"
+               "theorem moments_refuted : momentCheck cfg (interpPoly prog) = false := by decide +kernel")
     return f"""import {imp}
 import E3nnVerif.Generated.TP.{name}
 /- generated by harness/tp_family.py: kernel-decided certificate about the REGENERATED program Generated/TP/{name}.lean -/
@@ -306,7 +317,7 @@ def prepare(ctx, o3, props, extra_random=0):
         (cert_dir / prop).mkdir(parents=True, exist_ok=True)
         for n in okn:
             p = cert_dir / prop / f"{n}.lean"
-            txt = emit_cert(prop, n)
+            txt = emit_cert(prop, n, info[n]["cfg"])
             if not p.exists() or p.read_text() != txt:
                 p.write_text(txt)
         agg = cert_dir / prop / "All.lean"
